@@ -14,9 +14,11 @@ package p_map
 // reachable - and the only candidate is the container, which is still alive and in use.
 
 import (
+	"errors"
 	"fmt"
 	"math/bits"
 	"runtime"
+	"strings"
 	"time"
 	"weak"
 
@@ -94,17 +96,44 @@ const (
 	RAdv      = "adv"      // maps: N times Next on every open iterator
 	RCloseAll = "closeall" // maps: Close every open iterator
 	RMeasure  = "gc"       // measurement point
+	RTake     = "take"     // remove the first N (at most MaxTake) present slots found from From on (cyclically); no-op on an empty container
+	RPut      = "put"      // insert a fresh entry into the first N (at most MaxTake) absent slots found from From on; a full cache evicts for each
+	// RFlight (caches): for each of the first N (at most MaxFlights) absent slots found from From on: GetOrCreate(fresh key) runs on a second
+	// goroutine and is parked inside the create function; while that creation is in flight the first goroutine calls Remove(the same key)
+	// (Rev: Clear()); then the creation is released and FAILS unless Stride > 0 and its position j has j%Stride == Off%Stride (then it succeeds and
+	// the entry is live). One creation at a time; the second goroutine has ended before the op returns. No-op on maps.
+	RFlight = "flight"
 )
+
+// MaxTake / MaxFlights bound the counts of the ops of the same name.
+const (
+	MaxTake    = 64
+	MaxFlights = 64
+)
+
+var errFlight = errors.New("the create function fails (drawn by the case)")
 
 // MaxReachIters bounds the open iterators of a reachability case.
 const MaxReachIters = 8
 
-// ReachSlack is the number of objects of removed entries, per role, which a container may keep
+// ReachSlack is the number of KEY objects of removed entries which a container may keep
 // reachable beyond the entries pinned by open iterators. It does not depend on the size of the
 // case. The unchanged library keeps at most one (the key left in a recycled list node that serves
 // as trailing sentinel until the next Add overwrites it) - measured maximum over about 30000 cases of
 // all kinds and seeds: 1 key, 0 values, 0 primary keys. 8 is that plus a safety margin.
 const ReachSlack = 8
+
+// ReachSlackVal is the same allowance for the VALUE objects and for the primary keys (which the cache
+// stores inside the value of its recency list). A removed entry's value is "the removed entry" of the
+// statement in the plainest sense, and the unchanged library lets go of every one of them at the
+// moment of the removal (the list node is wiped before it is unlinked, marked or recycled): measured
+// maximum 0 in every measurement of every calibration run (see the assumptions in checks.d/C11.py),
+// also with iterators open. The bound is therefore 0 beyond the open iterators; the deadline in
+// collections (ReachMaxCycles) is what absorbs the runtime effects, not a count.
+const ReachSlackVal = 0
+
+// reachSlack is the allowance per role.
+var reachSlack = [nRoles]int{RoleKey: ReachSlack, RoleVal: ReachSlackVal, RolePK: ReachSlackVal}
 
 // ReachMaxCycles is the deadline of a measurement in garbage collections: sync.Pool needs two
 // cycles to let go of its content, a cycle that was already running when the measurement started
@@ -162,6 +191,12 @@ type ReachInfo struct {
 	Touches       int
 	ExpiredSwaps  int  // lru-expirable: stale entries replaced
 	ThinUnderIter bool // entries were removed while iterators were open
+	RemoveAddIdle bool // a measurement was taken after "removal(s) or an eviction, exactly one more insertion, nothing else" with no collection in between
+	RemoveIdle    bool // ... after removal(s) and no insertion at all
+	Flights       int  // creations overtaken by Remove/Clear while in flight (caches)
+	FlightsFailed int  // ... that failed afterwards
+	FlightsClear  int  // ... overtaken by Clear
+	FlightBurst   bool // one op made more failed overtaken creations than the key allowance (a leak of one key per event cannot hide)
 	StepCap       bool
 	Diverged      bool // the container disagrees with the harness about what is present (functional divergence: C10/C08): no verdict
 }
@@ -191,6 +226,13 @@ func (i ReachInfo) Classes() []string {
 	add(i.ExpiredSwaps > 0, "reach_expired_entries_replaced")
 	add(i.MeasuresOpen > 0, "reach_measured_with_open_iterators")
 	add(i.ThinUnderIter, "reach_removals_under_open_iterators")
+	add(i.RemoveAddIdle, "reach_measured_idle_after_removal_and_exactly_one_insertion")
+	add(i.RemoveIdle, "reach_measured_idle_after_removal_without_insertion")
+	add(i.Flights > 0, "reach_creation_overtaken_in_flight_by_remove_or_clear")
+	add(i.Flights-i.FlightsFailed > 0, "reach_overtaken_creation_succeeded")
+	add(i.FlightsFailed > 0, "reach_overtaken_creation_failed")
+	add(i.FlightsClear > 0, "reach_creation_overtaken_by_clear")
+	add(i.FlightBurst, "reach_more_failed_overtaken_creations_than_the_key_allowance")
 	add(i.Watched[RoleKey] >= 1000, "reach_watched_keys_ge_1000")
 	add(i.StepCap, "reach_step_cap_reached")
 	add(i.Diverged, "reach_cut_short_by_functional_divergence")
@@ -238,6 +280,18 @@ type reachRunner struct {
 	step    int
 	bigClr  bool
 	spread  int // 0 none, 1 narrow, 2 wide: a spreading thin happened since the last measurement
+	// ev: the last events since the last collection, for the classes: A = an insertion begins, D = an entry left (runs collapsed),
+	// E = an entry left by eviction, i.e. inside the insertion that is the preceding A
+	ev       []byte
+	inInsert bool
+	gate     *flightGate // set while a creation is to be parked inside the create function
+}
+
+// flightGate parks the create call for one slot (RFlight).
+type flightGate struct {
+	slot    int
+	entered chan struct{}
+	release chan bool // true: the creation succeeds
 }
 
 // RunReach executes a reachability case.
@@ -279,13 +333,34 @@ func (r *reachRunner) dropped(s int) {
 	*sl = slot{}
 	r.live--
 	r.info.Removed++
+	if r.inInsert {
+		r.event('E')
+	} else {
+		r.event('D')
+	}
+}
+
+func (r *reachRunner) event(e byte) {
+	if n := len(r.ev); n > 0 && r.ev[n-1] == e && e != 'A' {
+		return
+	}
+	if len(r.ev) >= 8 {
+		r.ev = append(r.ev[:0], r.ev[4:]...)
+	}
+	r.ev = append(r.ev, e)
 }
 
 // created: the container called the create function for pk (caches). Normally the slot was prepared
 // by insert; the expirable cache re-creates an entry it has just removed itself (stale item), then
 // the slot comes back to life with the same key object.
-func (r *reachRunner) created(pk *Obj) *Obj {
+func (r *reachRunner) created(pk *Obj) (*Obj, error) {
 	s := pk.Slot
+	if g := r.gate; g != nil && g.slot == s { // RFlight: this call runs on the second goroutine
+		g.entered <- struct{}{}
+		if !<-g.release {
+			return nil, errFlight
+		}
+	}
 	sl := &r.slots[s]
 	if !sl.live {
 		sl.live = true
@@ -296,10 +371,11 @@ func (r *reachRunner) created(pk *Obj) *Obj {
 			sl.k = pk
 		}
 		r.info.ExpiredSwaps++
+		r.event('A')
 	}
 	v := r.newObj(s, RoleVal)
 	sl.v = v
-	return v
+	return v, nil
 }
 
 // deleted: delete callback of a cache.
@@ -348,7 +424,10 @@ func (r *reachRunner) insert(s int) {
 	}
 	r.prepare(s)
 	before := r.info.Removed
+	r.event('A')
+	r.inInsert = true
 	r.b.insert(s)
+	r.inInsert = false
 	if !r.b.isMap() {
 		r.info.Evictions += r.info.Removed - before
 	}
@@ -373,20 +452,20 @@ func (r *reachRunner) run() *vstat.Violation {
 	case KindMapStruct:
 		r.b = newMapBox(r, func(o *Obj) SKey { return SKey{ID: o.Slot, P: o} }, func(o *Obj) SVal { return SVal{P: o, N: o.Slot} }, func(k SKey) *Obj { return k.P })
 	case KindLruCache:
-		c, err := lru.NewCache[*Obj, *Obj](r.c.Cap, func(k *Obj) (*Obj, error) { return r.created(k), nil }, func(k, _ *Obj) { r.deleted(k) })
+		c, err := lru.NewCache[*Obj, *Obj](r.c.Cap, r.created, func(k, _ *Obj) { r.deleted(k) })
 		if err != nil {
 			return nil // constructor contract: C08
 		}
 		r.b = &lruBox{r: r, api: c}
 	case KindLruECache:
 		c, err := lru.NewECache[*Obj, SKey, *Obj](r.c.Cap, func(pk *Obj) SKey { return SKey{ID: pk.Slot, P: pk.Tag} },
-			func(pk *Obj) (*Obj, error) { return r.created(pk), nil }, func(pk, _ *Obj) { r.deleted(pk) })
+			r.created, func(pk, _ *Obj) { r.deleted(pk) })
 		if err != nil {
 			return nil
 		}
 		r.b = &lruBox{r: r, api: c}
 	case KindLruExpirable:
-		c, err := lru.NewExpirableCache[*Obj, *Obj](r.c.Cap, func(k *Obj) (*Obj, error) { return r.created(k), nil }, func(k, _ *Obj) { r.deleted(k) })
+		c, err := lru.NewExpirableCache[*Obj, *Obj](r.c.Cap, r.created, func(k, _ *Obj) { r.deleted(k) })
 		if err != nil {
 			return nil
 		}
@@ -528,7 +607,86 @@ func (r *reachRunner) exec(op ReachOp) {
 		}
 	case RCloseAll:
 		r.b.closeAll()
+	case RTake, RPut:
+		k := clip(op.N, 0, MaxTake)
+		if !r.spend(len(r.slots)/64 + k) {
+			return
+		}
+		for t := 0; t < len(r.slots) && k > 0; t++ {
+			if s := at(t); r.slots[s].live == (op.K == RTake) {
+				if op.K == RTake {
+					r.remove(s)
+				} else {
+					r.insert(s)
+				}
+				k--
+			}
+		}
+	case RFlight:
+		k := clip(op.N, 0, MaxFlights)
+		if r.b.isMap() || !r.spend(len(r.slots)/64+8*k) {
+			return
+		}
+		failed := 0
+		for t, j := 0, 0; t < len(r.slots) && j < k; t++ {
+			s := at(t)
+			if r.slots[s].live {
+				continue
+			}
+			ok := stride > 0 && j%stride == mod(op.Off, stride)
+			if op.Rev && !r.spend(r.live) {
+				return
+			}
+			if r.flight(s, op.Rev, ok) && !ok {
+				failed++
+			}
+			j++
+		}
+		if failed > ReachSlack {
+			r.info.FlightBurst = true
+		}
 	}
+}
+
+// flight: one creation for the (absent) slot s that is overtaken, while the create function is running
+// on a second goroutine, by Remove of the same key or by Clear on this one. It reports whether the create
+// function was entered. Afterwards the second goroutine is gone; a failed creation has stored nothing,
+// so its key objects are objects of a removed entry from then on.
+func (r *reachRunner) flight(s int, byClear, succeed bool) bool {
+	r.prepare(s)
+	g := &flightGate{slot: s, entered: make(chan struct{}), release: make(chan bool)}
+	r.gate = g
+	done := make(chan struct{})
+	go func() {
+		defer close(done)
+		r.b.insert(s)
+	}()
+	entered := false
+	select {
+	case <-g.entered: // the creation is in flight and parked: nothing of the harness state is touched by it
+		entered = true
+		if byClear {
+			r.b.clear()
+			r.info.FlightsClear++
+		} else {
+			r.b.remove(s)
+		}
+		r.info.Flights++
+		if !succeed {
+			r.info.FlightsFailed++
+		}
+		g.release <- succeed
+		<-done
+	case <-done: // the cache did not ask for a creation
+	}
+	r.gate = nil
+	if r.slots[s].live && r.slots[s].v == nil { // nothing was created: the key was handed to the cache, the cache has no reason to keep it
+		r.dropped(s)
+	} else {
+		r.event('A')
+		r.notePeak()
+	}
+	return entered
 }
 
 // sweep resolves the weak pointers: collected objects leave the list, the others are counted per
@@ -559,7 +717,28 @@ func (r *reachRunner) sweep() (alive [nRoles]int) {
 // reachable, or the deadline (in cycles) has passed.
 func (r *reachRunner) measure(where string) *vstat.Violation {
 	open := r.b.open()
-	bound := ReachSlack + open
+	var bound [nRoles]int
+	for role := range bound {
+		bound[role] = reachSlack[role] + open
+	}
+	within := func(alive [nRoles]int) bool {
+		for role, n := range alive {
+			if n > bound[role] {
+				return false
+			}
+		}
+		return true
+	}
+	if open == 0 {
+		ev := string(r.ev)
+		switch {
+		case strings.HasSuffix(ev, "DA") || strings.HasSuffix(ev, "EA") || strings.HasSuffix(ev, "DAE") || strings.HasSuffix(ev, "EAE"):
+			r.info.RemoveAddIdle = true
+		case strings.HasSuffix(ev, "D") || strings.HasSuffix(ev, "E"):
+			r.info.RemoveIdle = true
+		}
+	}
+	r.ev = r.ev[:0]
 	r.info.Measures++
 	if open > 0 {
 		r.info.MeasuresOpen++
@@ -585,7 +764,7 @@ func (r *reachRunner) measure(where string) *vstat.Violation {
 		cycles++
 		alive = r.sweep()
 		worst := max(alive[RoleKey], alive[RoleVal], alive[RolePK])
-		if worst <= bound && cycles >= ReachMinCycles {
+		if within(alive) && cycles >= ReachMinCycles {
 			ok = true
 			if worst <= open+1 || settle == 2 {
 				break
@@ -629,9 +808,9 @@ func (r *reachRunner) measure(where string) *vstat.Violation {
 		r.info.Diverged = true
 		return nil
 	}
-	worst := 0
+	worst := 0 // the role that is furthest beyond its bound
 	for role := range alive {
-		if alive[role] > alive[worst] {
+		if alive[role]-bound[role] > alive[worst]-bound[worst] {
 			worst = role
 		}
 	}
@@ -643,8 +822,8 @@ func (r *reachRunner) measure(where string) *vstat.Violation {
 	// collector ran during the history): the message carries its order of magnitude only, so that
 	// the failure reproduces literally
 	return vstat.V(sig, "%s (%s, %d slots): %s: %d entries live, %d open iterators, %d entries removed so far; after %d garbage collections at least %d %s objects of REMOVED entries are still reachable "+
-		"(bound: %d = %d + open iterators, independent of the history) while the %s is alive and nothing else refers to them: the %s retains removed entries",
-		what, r.c.Kind, r.c.Slots, where, r.live, open, r.info.Removed, ReachMaxCycles, 1<<(bits.Len(uint(alive[worst]))-1), roleNames[worst], bound, ReachSlack, what, what)
+		"(bound for %s objects: %d = %d + open iterators, independent of the history) while the %s is alive and nothing else refers to them: the %s retains removed entries",
+		what, r.c.Kind, r.c.Slots, where, r.live, open, r.info.Removed, ReachMaxCycles, 1<<(bits.Len(uint(alive[worst]))-1), roleNames[worst], roleNames[worst], bound[worst], reachSlack[worst], what, what)
 }
 
 // anyPresent asks the container about the keys of up to 64 retained removed entries.
